@@ -282,7 +282,9 @@ func (c *ProofCommit) Update(commitments []*big.Int, witness *Witness) {
 	Logger.Tracef("revocation.ProofCommit.Update()")
 	defer Logger.Tracef("revocation.ProofCommit.Update() done")
 	c.cu = new(big.Int).Exp(c.g.H, c.secrets["epsilon"], c.g.N)
-	c.cu.Mul(c.cu, witness.U)
+	// (reduced: the product itself, as an integer, is a multiple of the witness value u, from which
+	// whoever knows u - the issuer - would recognise the holder)
+	c.cu.Mul(c.cu, witness.U).Mod(c.cu, c.g.N)
 	c.nu = witness.SignedAccumulator.Accumulator.Nu
 	c.sacc = witness.SignedAccumulator
 
